@@ -90,48 +90,79 @@ type Decomp struct {
 	NewVerts int     // intersection vertices that are vertices of neither operand
 }
 
-// BoolOp evaluates S = op(in a, in b) on the joint arrangement.
-func BoolOp(a, b *Shape, op func(x, y bool) bool) *Decomp {
+// JC is the joint arrangement of two shapes with the membership of every
+// cell in each operand precomputed, so several Boolean combinations can be
+// decomposed without rebuilding it.
+type JC struct {
+	Arr          *Arr
+	A, B         *Shape
+	fs           []Pt
+	far          []*big.Rat
+	FaceA, FaceB []bool
+	EdgeA, EdgeB []bool
+	VertA, VertB []bool
+	EdgeMid      []Pt
+	Overlap      bool // some cell belongs to both operands
+}
+
+func NewJC(a, b *Shape) *JC {
 	arr := Joint(a, b)
-	d := &Decomp{Arr: arr, Area: new(big.Rat)}
-	fs, far := arr.FaceSamples()
+	j := &JC{Arr: arr, A: a, B: b}
+	j.fs, j.far = arr.FaceSamples()
+	j.FaceA, j.FaceB = make([]bool, arr.NFaces), make([]bool, arr.NFaces)
+	for f := 1; f < arr.NFaces; f++ {
+		j.FaceA[f], j.FaceB[f] = a.In(j.fs[f]), b.In(j.fs[f])
+		if j.FaceA[f] && j.FaceB[f] {
+			j.Overlap = true
+		}
+	}
+	j.EdgeA, j.EdgeB = make([]bool, len(arr.E)), make([]bool, len(arr.E))
+	j.EdgeMid = make([]Pt, len(arr.E))
+	for ei, e := range arr.E {
+		m := Mid(arr.V[e.U], arr.V[e.V])
+		j.EdgeMid[ei] = m
+		j.EdgeA[ei], j.EdgeB[ei] = a.In(m), b.In(m)
+		if j.EdgeA[ei] && j.EdgeB[ei] {
+			j.Overlap = true
+		}
+	}
+	j.VertA, j.VertB = make([]bool, len(arr.V)), make([]bool, len(arr.V))
+	for vi, v := range arr.V {
+		j.VertA[vi], j.VertB[vi] = a.In(v), b.In(v)
+		if j.VertA[vi] && j.VertB[vi] {
+			j.Overlap = true
+		}
+	}
+	return j
+}
+
+// Decompose evaluates S = op(in a, in b) and the decomposition of cl(S).
+func (j *JC) Decompose(op func(x, y bool) bool) *Decomp {
+	arr := j.Arr
+	d := &Decomp{Arr: arr, Area: new(big.Rat), Overlap: j.Overlap}
 	fIn := make([]bool, arr.NFaces)
 	for f := 1; f < arr.NFaces; f++ {
-		ia, ib := a.In(fs[f]), b.In(fs[f])
-		fIn[f] = op(ia, ib)
-		if ia && ib {
-			d.Overlap = true
-		}
+		fIn[f] = op(j.FaceA[f], j.FaceB[f])
 		if fIn[f] {
-			d.Area.Add(d.Area, far[f])
+			d.Area.Add(d.Area, j.far[f])
 		}
-		d.Cells = append(d.Cells, Cell{Dim: 2, Sample: fs[f], InS: fIn[f], InCl: fIn[f], A: ia, B: ib})
+		d.Cells = append(d.Cells, Cell{Dim: 2, Sample: j.fs[f], InS: fIn[f], InCl: fIn[f], A: j.FaceA[f], B: j.FaceB[f]})
 	}
 	edgeCl := make([]bool, len(arr.E))
 	length := new(big.Float).SetPrec(200)
 	for ei, e := range arr.E {
-		m := Mid(arr.V[e.U], arr.V[e.V])
-		ia, ib := a.In(m), b.In(m)
-		if ia && ib {
-			d.Overlap = true
-		}
-		s := op(ia, ib)
+		s := op(j.EdgeA[ei], j.EdgeB[ei])
 		l, r := fIn[e.Lo], fIn[e.Hi]
 		edgeCl[ei] = s || l || r
 		if s && !l && !r {
 			length.Add(length, SqrtBig(DistSq(arr.V[e.U], arr.V[e.V])))
 			d.NEdges++
 		}
-		d.Cells = append(d.Cells, Cell{Dim: 1, Sample: m, InS: s, InCl: edgeCl[ei], A: ia, B: ib})
+		d.Cells = append(d.Cells, Cell{Dim: 1, Sample: j.EdgeMid[ei], InS: s, InCl: edgeCl[ei], A: j.EdgeA[ei], B: j.EdgeB[ei]})
 	}
 	d.Length, _ = length.Float64()
 	for vi, v := range arr.V {
-		ia, ib := a.In(v), b.In(v)
-		if ia && ib {
-			d.Overlap = true
-		}
-		s := op(ia, ib)
-		cl := s
+		s := op(j.VertA[vi], j.VertB[vi])
 		covered := false
 		for _, ei := range arr.VEdges[vi] {
 			if edgeCl[ei] {
@@ -141,16 +172,16 @@ func BoolOp(a, b *Shape, op func(x, y bool) bool) *Decomp {
 		if len(arr.VEdges[vi]) == 0 && fIn[arr.VFace[vi]] {
 			covered = true
 		}
-		if covered {
-			cl = true
-		}
 		if s && !covered {
 			d.Points = append(d.Points, v)
 		}
-		d.Cells = append(d.Cells, Cell{Dim: 0, Sample: v, InS: s, InCl: cl, A: ia, B: ib})
+		d.Cells = append(d.Cells, Cell{Dim: 0, Sample: v, InS: s, InCl: s || covered, A: j.VertA[vi], B: j.VertB[vi]})
 	}
 	return d
 }
+
+// BoolOp evaluates S = op(in a, in b) on the joint arrangement.
+func BoolOp(a, b *Shape, op func(x, y bool) bool) *Decomp { return NewJC(a, b).Decompose(op) }
 
 // DistSqToShape is the exact squared distance from p to the point set of s
 // (0 when p is in s). ok=false when s is empty.
@@ -319,4 +350,57 @@ func (a *Arr) SepOfSample(c Cell, ci int) float64 {
 		}
 	}
 	return best
+}
+
+// RingArea2 is twice the signed shoelace area of a closed ring.
+func RingArea2(r []Pt) *big.Rat {
+	s := new(big.Rat)
+	for i := 0; i+1 < len(r); i++ {
+		s.Add(s, sub(mul(r[i].X, r[i+1].Y), mul(r[i+1].X, r[i].Y)))
+	}
+	return s
+}
+
+// Area is the exact area of the areal part (shell minus holes per polygon,
+// polygons summed; meaningful for valid polygons / multipolygons).
+func (s *Shape) Area() *big.Rat {
+	tot := new(big.Rat)
+	for _, poly := range s.Polys {
+		for i, r := range poly {
+			a := RingArea2(r)
+			a.Abs(a)
+			if i == 0 {
+				tot.Add(tot, a)
+			} else {
+				tot.Sub(tot, a)
+			}
+		}
+	}
+	return tot.Mul(tot, ratHalf)
+}
+
+// Length is the total length of the lineal part (200-bit square roots).
+func (s *Shape) Length() float64 {
+	l := new(big.Float).SetPrec(200)
+	for _, ln := range s.Lines {
+		for i := 0; i+1 < len(ln); i++ {
+			l.Add(l, SqrtBig(DistSq(ln[i], ln[i+1])))
+		}
+	}
+	f, _ := l.Float64()
+	return f
+}
+
+// Perimeter is the total ring length of the areal part.
+func (s *Shape) Perimeter() float64 {
+	l := new(big.Float).SetPrec(200)
+	for _, p := range s.Polys {
+		for _, r := range p {
+			for i := 0; i+1 < len(r); i++ {
+				l.Add(l, SqrtBig(DistSq(r[i], r[i+1])))
+			}
+		}
+	}
+	f, _ := l.Float64()
+	return f
 }
